@@ -175,6 +175,23 @@ pub fn run_real(d: Det, su: &pt::SourceUnit) -> Run {
     }
 }
 
+/// the real detector's locations as (start, end) pairs
+pub fn run_real_locs(d: Det, su: &pt::SourceUnit) -> Result<Vec<(usize, usize)>, (&'static str, String)> {
+    let f = d.real();
+    let input = su.clone();
+    match std::panic::catch_unwind(std::panic::AssertUnwindSafe(move || f(input))) {
+        Ok(locs) => {
+            let mut v: Vec<(usize, usize)> = locs.iter().map(|l| (oracle::st(l), oracle::en(l))).collect();
+            v.sort();
+            Ok(v)
+        }
+        Err(_) => {
+            let msg = LAST_PANIC.lock().map(|g| g.clone()).unwrap_or_default();
+            Err((panic_class(&msg), msg))
+        }
+    }
+}
+
 pub struct Verdict {
     pub expect: oracle::Expect,
     pub reported: BTreeSet<usize>,
@@ -235,6 +252,18 @@ pub fn replay(prop: &str, det_name: &str, src: &str) -> (bool, String) {
             Run::Panic(c, m) => (false, format!("{} panicked ({}): {}", det_name, c, m)),
         },
         "c19" => checks::replay_c19(d, src),
+        "c02-loc" => {
+            let w = checks::wrong_node_locations(d, &su);
+            if w.is_empty() {
+                (true, format!("{}: every reported location is the start of the construct named by section 8 (or the case is a plain miss / extra report, which is not C02's business)", det_name))
+            } else {
+                let lines: Vec<String> = w
+                    .iter()
+                    .map(|x| format!("reports {}..{} (line {}) which lies inside / around the expected construct at offset {} (line {}) that is itself not reported", x.0, x.1, line_of(src, x.0), x.2, line_of(src, x.2)))
+                    .collect();
+                (false, format!("{}: {}", det_name, lines.join("; ")))
+            }
+        }
         _ => {
             let v = check_contract(d, &su);
             if let Some((c, m)) = &v.panic {
@@ -279,9 +308,10 @@ pub fn dispatch(cmd: &str, rest: &[String], tier: &str, seed: u64) -> Option<i32
         "c08" => emit(big_stack(move || checks::run_decl_level("c08", &tier, seed))),
         "c09" => emit(big_stack(move || checks::run_c09(&tier, seed))),
         "c19" => emit(big_stack(move || checks::run_c19(&tier, seed))),
+        "c02-loc" => emit(big_stack(move || checks::run_c02_loc(&tier, seed))),
         "det-case" => {
             if rest.len() < 3 {
-                eprintln!("usage: vxn det-case <c04|c05|c06|c07|c08|c09|c19> <detector> @src:<text>|@file:<path>");
+                eprintln!("usage: vxn det-case <c02-loc|c04|c05|c06|c07|c08|c09|c19> <detector> @src:<text>|@file:<path>");
                 return Some(2);
             }
             let (prop, det, src) = (rest[0].clone(), rest[1].clone(), crate::arg_or_file(&rest[2]));
